@@ -101,6 +101,11 @@ def run(ctx, rep):
         import traceback; traceback.print_exc()
         rep.fail("R02.10", "engine", "transparent polyline analysis crashed: %r" % (e,), status="undecided")
     try:
+        triangle_box_inputs(prog, rep)
+    except Exception as e:
+        import traceback; traceback.print_exc()
+        rep.fail("R02.12", "engine", "triangle box analysis crashed: %r" % (e,), status="undecided")
+    try:
         collapsed_case(prog, rep)
     except Exception as e:
         import traceback; traceback.print_exc()
@@ -173,6 +178,48 @@ def collapsed_case(prog, rep):
         rep.fail("R02.11", "triangle:collapsed-case", "; ".join(sorted(set(und))[:2]) or "expected at least two paths (%d)" % n, status="undecided", at=f.span, fn=f.path)
     else:
         rep.ok("R02.11", "triangle:collapsed-case", at=f.span, fn=f.path, detail={"paths": n})
+
+
+def triangle_box_inputs(prog, rep):
+    """R02.12 the thick-stroke box of a triangle is computed from the inputs the renderer works on: every
+    `ClosedThickSegmentIter::new` in `Triangle::styled_bounding_box` gets the vertices of `self.sorted_clockwise()` (the
+    renderer normalises the winding, R19.6: joins and stroke sides depend on it — also for centred strokes), the style's
+    stroke width and `StrokeOffset::from(style.stroke_alignment)`."""
+    TRI = "embedded_graphics::primitives::triangle::Triangle"
+    fs = [f for f in prog.fns.values() if f.name == "styled_bounding_box" and f.impl and str(prog.impls[f.impl]["self_ty"].get("adt", "")) == TRI]
+    if len(fs) != 1:
+        rep.fail("R02.12", "triangle:box-inputs", "anchor lost (%d)" % len(fs), status="undecided")
+        return
+    f = fs[0]
+    vi = field_index(prog, TRI, "vertices")
+    fam = [f] + list(prog.new_helpers_of(f))
+    n, bad = 0, []
+    for g in fam:
+        if not g.body:
+            continue
+        o = Origins(g)
+        for bi in sorted(o.cfg.live_blocks()):
+            t = g.body["blocks"][bi]["t"]
+            if not (t and t["k"] == "call" and t["f"].get("name") == "new" and "ClosedThickSegmentIter" in ((t["f"].get("resolved") or t["f"]).get("path", "") or "")):
+                continue
+            n += 1
+            a = [strip_refs(x) for x in o.term_args(bi)]
+            if g is not f:
+                continue            # a helper gets its inputs from the caller; the direct site is checked
+            raw = [n_ for n_ in walk(a[0]) if n_[0] == "field" and n_[2] == vi and strip_refs(n_[1]) == ("param", 1, "self")]
+            srt = [n_ for n_ in walk(a[0]) if n_[0] == "field" and n_[2] == vi and strip_refs(n_[1])[0] == "call" and strip_refs(n_[1])[1].endswith("::sorted_clockwise")]
+            if raw or not srt:
+                bad.append("the segments are built from %s: on some path not from self.sorted_clockwise()" % show(a[0], maxd=4)[:140])
+            style = ("param", 2, "style")
+            ps = "embedded_graphics::primitives::primitive_style::PrimitiveStyle"
+            if len(a) >= 3:
+                if strip_refs(a[1]) != ("field", style, field_index(prog, ps, "stroke_width")):
+                    bad.append("the stroke width is %s" % show(a[1], maxd=3))
+                off = strip_refs(a[2])
+                if not (off[0] == "call" and off[1].split("::")[-1] in ("from", "into") and len(off[3]) == 1 and strip_refs(off[3][0]) == ("field", style, field_index(prog, ps, "stroke_alignment"))):
+                    bad.append("the stroke offset is %s" % show(off, maxd=3))
+    rep.check(not bad and n >= 1, "R02.12", "triangle:box-inputs", "Triangle::styled_bounding_box must build its thick segments from sorted_clockwise() vertices, style.stroke_width and StrokeOffset::from(style.stroke_alignment): %s" % ("; ".join(bad[:2]) or "no ClosedThickSegmentIter::new found"),
+              at=f.span, fn=f.path, status="refuted" if bad else "undecided")
 
 
 def check_styled_boxes(prog, rep):
